@@ -10,6 +10,7 @@
    implementation's own uncancelled trace as [step], predicts every cancelled run (poll counts and results). *)
 From Coq Require Import List Arith Bool.
 From Verif Require Import c07.Cancel c07.CancelProofs.
+From Verif Require c01vm.Syntax c01vm.Code c01vm.VM c07.VMLink.
 Import ListNotations.
 
 
@@ -90,6 +91,53 @@ Theorem C07_error_resumes : forall (St V E : Type) (step : St -> outcome St V E)
 Proof. exact error_resumes. Qed.
 Print Assumptions C07_error_resumes.
 
+
+(* ---- the abstract [step] instantiated with a concrete step function: the VM of coq/c01vm ---------------- *)
+(* VMLink.vm_fetch nt code = one instruction fetch of c01vm's step (execute.go's Next loop for fragment F,
+   tied to the implementation by instruction lists, outputs and per-instruction traces), including the fork
+   popping / return that follows a break.  It has the type of [step]; this theorem says it is that function. *)
+Theorem C07_c01vm_step_is_step : forall (nt : Code.natives) (code : list Code.instr) (s : VM.state),
+  match VMLink.vm_fetch nt code s with
+  | Continue s' =>
+      VM.step nt code s = VM.Next s' \/
+      (exists e fk vs l, VM.step nt code s = VM.Next (VM.Brk e fk vs l) /\ VM.step nt code (VM.Brk e fk vs l) = VM.Next s')
+  | Emit v s' => VM.step nt code s = VM.Emit v s'
+  | EmitErr (Some x) _ =>
+      VM.step nt code s = VM.Halt (Some x) \/
+      (exists fk vs l, VM.step nt code s = VM.Next (VM.Brk (Some x) fk vs l) /\ VM.step nt code (VM.Brk (Some x) fk vs l) = VM.Halt (Some x))
+  | EmitErr None _ => VM.step nt code s = VM.Stuck
+  | Exhausted =>
+      VM.step nt code s = VM.Halt None \/
+      (exists fk vs l, VM.step nt code s = VM.Next (VM.Brk None fk vs l) /\ VM.step nt code (VM.Brk None fk vs l) = VM.Halt None)
+  end.
+Proof. exact VMLink.vm_fetch_spec. Qed.
+Print Assumptions C07_c01vm_step_is_step.
+
+(* the uncancelled Iter history over vm_fetch is c01vm's [run] (by C01vm_compile_correct: the denotation of
+   the query): the outputs in order, then (nil,false) or the error value *)
+Theorem C07_c01vm_calls_run : forall (nt : Code.natives) (code : list Code.instr) outs fuel s e,
+  VM.run nt code fuel s = (outs, e) -> (e = VM.End \/ exists x, e = VM.Error x) ->
+  forall c, st c = Running s ->
+  exists f h, calls (VMLink.vm_fetch nt code) never f (S (length outs)) c = Some h /\
+    map fst h = map (fun v => RVal v) outs ++ [match e with VM.Error x => RErr (Some x) | _ => RDone end].
+Proof. exact VMLink.calls_run. Qed.
+Print Assumptions C07_c01vm_calls_run.
+
+(* the cancellation theorem specialised to the concrete VM *)
+Theorem C07_c01vm_cancel_history : forall (nt : Code.natives) (code : list Code.instr),
+  forall done k, first_true done k -> forall n fuel (c : cfg VM.state) h,
+  polls c <= k -> calls (VMLink.vm_fetch nt code) done fuel n c = Some h ->
+  exists pre post, h = pre ++ post
+    /\ calls (VMLink.vm_fetch nt code) never fuel (length pre) c = Some pre
+    /\ Forall (fun rc => polls (snd rc) <= k) pre
+    /\ (post = [] \/
+        let c1 := end_cfg c pre in
+        st c1 <> Parked
+        /\ (forall f' r' c'', next (VMLink.vm_fetch nt code) never f' c1 = Some (r', c'') -> k < polls c'')
+        /\ exists m, let P := mkCfg (S k) (instrs c1 + (k - polls c1)) Parked in
+             post = (RCtx, P) :: repeat (RDone, P) m).
+Proof. intros nt code. exact (cancel_history VM.state Syntax.jv (option VM.verr) (VMLink.vm_fetch nt code)). Qed.
+Print Assumptions C07_c01vm_cancel_history.
 
 (* non-vacuity: an infinite generator (a value every third instruction, an error value at
    instruction 4, never exhausted).  Uncancelled: values for ever.  Cancelled at poll 7: the values
